@@ -1,7 +1,12 @@
 """
-Loop-free driver: when the sender answers immediately nothing in puresnmp ever
-suspends, so coroutines and async generators can be run to completion by hand.
-A suspension is a hard harness error.
+Driver for the sequential harnesses: runs a coroutine (or drains an async
+generator) of the library to completion on a private virtual-time event loop.
+
+With the harness' senders answering immediately nothing in puresnmp suspends
+today, but an implementation is free to use tasks, futures or sleeps
+internally; running on a real (virtual-time) loop keeps the harnesses valid for
+such implementations.  A coroutine that cannot finish (waits for something
+nobody will provide) is a hard harness error.
 """
 
 
@@ -9,14 +14,57 @@ class HarnessError(Exception):
     """The harness itself is broken (never reported as a violation)."""
 
 
+_LOOP = None
+
+
+def _loop():
+    global _LOOP
+    if _LOOP is None or _LOOP.is_closed():
+        from .vloop import VLoop
+
+        _LOOP = VLoop()
+    return _LOOP
+
+
 def run(coro):
-    try:
-        coro.send(None)
-    except StopIteration as stop:
-        return stop.value
-    else:
-        coro.close()
-        raise HarnessError("coroutine suspended under the loop-free driver")
+    from .clock import CLOCK
+    from .vloop import Stalled
+
+    loop = _loop()
+    with loop.running():
+        task = loop.create_task(coro)
+        try:
+            loop.run_ready()
+            if not task.done():
+                # timers (sleeps, timeouts) of the library: let virtual time pass
+                try:
+                    loop.run_until_idle(horizon=CLOCK.mono + 3600)
+                except Stalled:
+                    pass
+        finally:
+            if not task.done():
+                task.cancel()
+                try:
+                    loop.run_ready()
+                except Exception:  # noqa
+                    pass
+                del loop.logged[:]
+                raise HarnessError("coroutine did not finish on the driver's event loop")
+    del loop.logged[:]
+    if task.cancelled():
+        raise HarnessError("coroutine was cancelled")
+    exc = task.exception()
+    if exc is not None:
+        raise exc
+    return task.result()
+
+
+async def _anext(agen):
+    return await agen.__anext__()
+
+
+async def _aclose(agen):
+    await agen.aclose()
 
 
 def drain(agen, limit=None):
@@ -25,7 +73,7 @@ def drain(agen, limit=None):
     try:
         while True:
             try:
-                items.append(run(agen.__anext__()))
+                items.append(run(_anext(agen)))
             except StopAsyncIteration:
                 return items, None
             if limit is not None and len(items) > limit:
@@ -38,6 +86,6 @@ def drain(agen, limit=None):
         return items, exc
     finally:
         try:
-            run(agen.aclose())
-        except BaseException:
+            run(_aclose(agen))
+        except BaseException:  # noqa
             pass
